@@ -50,7 +50,7 @@ for d in sorted(glob.glob(os.path.join(wt, f"seeded_{prop}_*"))):
     run_checks = checks
     if checks == ["auto"]:
         import re as _re
-        RELATED = {"C01": ["C01", "C13", "C14", "C04"], "C02": ["C02", "C19", "C01"], "C04": ["C04", "C08"], "C05": ["C05", "C06"], "C06": ["C06", "C05"], "C08": ["C08"],
+        RELATED = {"C01": ["C01", "C13", "C14", "C04"], "C02": ["C02", "C19", "C01"], "C04": ["C04", "C08"], "C05": ["C05", "C06"], "C06": ["C06", "C05", "C15"], "C08": ["C08"],
                    "C09": ["C09"], "C10": ["C10"], "C11": ["C11", "C01", "C14"], "C13": ["C13", "C14"], "C14": ["C14", "C13"], "C15": ["C15"], "C16": ["C16"],
                    "C19": ["C19"], "C20": ["C20"], "C03": ["C03", "C07"], "C07": ["C07", "C01", "C04"]}
         ids = _re.findall(r"C\d\d", str(meta.get("property", "")))
